@@ -1636,6 +1636,8 @@ fn run_c17(args: &Args) -> Report {
         // editor).
         let late = cr.chance(1, 4);
         let late_listed = late && cr.chance(1, 2);
+        let devdep = cr.chance(1, 3);
+        const DEVONLY_TEXT: &str = "pub fn run() { helper() }\n\nfn helper() { 1 }\n";
         for p in &pkgs {
             std::fs::create_dir_all(p.dir.join("src")).unwrap();
             let mut toml = format!("name = \"{}\"\nversion = \"1.0.0\"\n\n[dependencies]\n", p.name);
@@ -1647,6 +1649,15 @@ fn run_c17(args: &Args) -> Report {
             }
             for d in &p.path_deps {
                 toml.push_str(&format!("{d} = {{ path = \"{}{d}\" }}\n", if nested_path { "libs/" } else { "../" }));
+            }
+            if devdep && p.key == "app" {
+                // a package that is ONLY a dev-dependency (the test runner of practically every project): fetched
+                // into build/packages like the others, external like the others
+                toml.push_str("\n[dev-dependencies]\ndevonly = \"~> 1.0\"\n");
+                let ddir = p.dir.join("build/packages/devonly");
+                std::fs::create_dir_all(ddir.join("src")).unwrap();
+                std::fs::write(ddir.join("gleam.toml"), "name = \"devonly\"\nversion = \"1.0.0\"\n\n[dependencies]\n").unwrap();
+                std::fs::write(ddir.join("src/devonly.gleam"), DEVONLY_TEXT).unwrap();
             }
             std::fs::write(p.dir.join("gleam.toml"), toml).unwrap();
             for (m, dirname) in &p.modules {
@@ -1674,11 +1685,22 @@ fn run_c17(args: &Args) -> Report {
                 }
             }
         }
+        // One tree in three keeps a fixture project below the root's test/ directory - a project of its own
+        // (own gleam.toml), not a dependency of anything. Its files belong to IT (the innermost root containing
+        // them), whenever they are opened: `import fixmod` inside it means its own src/fixmod.gleam.
+        let fixture = if cr.chance(1, 3) { Some(root.join("test/fixtures/inner")) } else { None };
+        if let Some(fx) = &fixture {
+            std::fs::create_dir_all(fx.join("src")).unwrap();
+            std::fs::write(fx.join("gleam.toml"), "name = \"inner\"\nversion = \"1.0.0\"\n").unwrap();
+            std::fs::write(fx.join("src/fixmod.gleam"), "pub fn fixfn() { 1 }\n").unwrap();
+            std::fs::write(fx.join("src/fixuser.gleam"), "import fixmod\n\npub fn g() { fixmod.fixfn() }\n").unwrap();
+            rep.see("layouts", "fixture-project-below-the-roots-test-directory");
+        }
         std::fs::create_dir_all(base.join("ws/loose")).unwrap();
         let free = base.join("ws/loose/free.gleam");
         std::fs::write(&free, "pub fn free_fn() { 1 }\n\npub fn caller() { free_fn() }\n").unwrap();
 
-        let replay = json!({"kind":"project-tree","case_seed":case_seed.to_string(),"packages":pkgs.iter().map(|p| json!({"key":p.key,"name":p.name,"dir":p.dir.display().to_string(),"local":p.local,"deps":p.deps,"path_deps":p.path_deps,"modules":p.modules.iter().map(|(m,d)| format!("{d}/{m}")).collect::<Vec<_>>()})).collect::<Vec<_>>()});
+        let replay = json!({"kind":"project-tree","case_seed":case_seed.to_string(),"fixture_project_below_test":fixture.is_some(),"dev_dependency":devdep,"packages":pkgs.iter().map(|p| json!({"key":p.key,"name":p.name,"dir":p.dir.display().to_string(),"local":p.local,"deps":p.deps,"path_deps":p.path_deps,"modules":p.modules.iter().map(|(m,d)| format!("{d}/{m}")).collect::<Vec<_>>()})).collect::<Vec<_>>()});
         rep.evaluations += 1;
         let mut s = match Server::spawn(&bin, &[], None) { Ok(s) => s, Err(_) => { rep.inconclusive += 1; continue; } };
         if s.initialize(Some(&file_uri(&root.display().to_string())), Duration::from_secs(20)).is_none() { rep.inconclusive += 1; continue; }
@@ -1934,6 +1956,53 @@ fn run_c17(args: &Args) -> Report {
             if died || !s.alive() {
                 rep.count("server_died(C15's business)", 1);
                 continue;
+            }
+        }
+        // the dev-dependency: a document inside it is navigable, never editable
+        if devdep {
+            let dfile = pkgs[0].dir.join("build/packages/devonly/src/devonly.gleam");
+            let du = file_uri(&dfile.display().to_string());
+            rep.see("layouts", "dev-dependency-only-package");
+            version += 1;
+            s.notify("textDocument/didOpen", json!({"textDocument":{"uri":du,"languageId":"gleam","version":version,"text":DEVONLY_TEXT}}));
+            let mut rp = replay.clone();
+            rp["dev_dependency"] = json!({"opening_order": order_name});
+            let id = s.request("textDocument/prepareRename", json!({"textDocument":{"uri":du},"position":{"line":2,"character":4}}));
+            if let Some(pr) = s.wait_response(id, Duration::from_secs(20)) {
+                rep.count("prepare_rename_queries_in_a_dev_dependency", 1);
+                if pr.get("result").map(|r| !r.is_null()).unwrap_or(false) {
+                    rep.violate(format!("external-package-editability:dev-dependency:build-packages-accepted:{order_name}"), "prepareRename on `helper` of build/packages/devonly (listed under [dev-dependencies]) accepts".to_string(), rp.clone());
+                }
+            }
+            let id = s.request("textDocument/rename", json!({"textDocument":{"uri":du},"position":{"line":2,"character":4},"newName":"renamed_helper"}));
+            if let Some(rr) = s.wait_response(id, Duration::from_secs(20)) {
+                if rr.get("result").map(|r| r.to_string().contains("build/packages/devonly")).unwrap_or(false) {
+                    rep.violate(format!("rename-edits-dependency:dev-dependency:{order_name}"), "rename of `helper` returns edits in build/packages/devonly".to_string(), rp);
+                }
+            }
+        }
+        // the fixture project: opened after the root project has been loaded (whose loader has walked the
+        // root's test/ directory, fixture included)
+        if let Some(fx) = &fixture {
+            let uu = file_uri(&fx.join("src/fixuser.gleam").display().to_string());
+            version += 1;
+            s.notify("textDocument/didOpen", json!({"textDocument":{"uri":uu,"languageId":"gleam","version":version,"text":"import fixmod\n\npub fn g() { fixmod.fixfn() }\n"}}));
+            let id = s.request("textDocument/definition", json!({"textDocument":{"uri":uu},"position":{"line":2,"character":22}}));
+            if let Some(resp) = s.wait_response(id, Duration::from_secs(20)) {
+                let got: Vec<String> = match resp.get("result") {
+                    Some(Value::Array(a)) => a.iter().filter_map(|l| l["uri"].as_str()).map(vh::lspclient::normalise_uri).collect(),
+                    Some(Value::Object(o)) => o.get("uri").and_then(|u| u.as_str()).map(|u| vec![vh::lspclient::normalise_uri(u)]).unwrap_or_default(),
+                    _ => vec![],
+                };
+                let want = vh::lspclient::normalise_uri(&file_uri(&fx.join("src/fixmod.gleam").display().to_string()));
+                rep.count("definition_queries_in_a_nested_project", 1);
+                if got != vec![want.clone()] {
+                    rep.violate(
+                        format!("nested-project:import-does-not-resolve-in-the-innermost-package:{order_name}"),
+                        format!("test/fixtures/inner is a project of its own; `fixmod.fixfn` in its src/fixuser.gleam answers {got:?}, expected {want}"),
+                        replay.clone(),
+                    );
+                }
             }
         }
         // free-standing file still gets answers
